@@ -44,7 +44,7 @@ def initial_cases(tier, seed):
             cases.append({"kind": "vi", "level": level, "rho_mult": rm, "theta": th, "spec": spec})
         cases.append({"kind": "vi-l1", "level": level, "rho_mult": rm, "theta": th})
         cases.append({"kind": "vij", "level": level, "rho_mult": rm, "theta": th, "fp": fp})
-    for cls in ("SDMX", "SDMXG", "SDMX1", "SDMXG1", "SDMXFull", "SADM"):
+    for cls in ("SDMX", "SDMXG", "SDMX1", "SDMXG1", "SDMXFull", "SADM", "SDMXG-all", "SDMXG1-all", "SDMX1-all"):
         cases.append({"kind": "sdmx", "cls": cls})
     for fam, sl, rm in itertools.product(["VJ", "VI", "VIJ", "VK", "VIJ2", "VI0", "SDMX", "SDMXG1", "SDMXFull", "VIJ+SDMX1"], ["npa", "nst", "np", "ns"], ["one", "expnt"]):
         if rm == "expnt" and not fam.startswith("V"):
